@@ -168,7 +168,8 @@ impl MVal for Orswot<u8, u8> {
     }
     fn random_cmd(v: &Self, rng: &mut rand::rngs::StdRng, d: &Dims) -> Value {
         use rand::Rng;
-        let present: Vec<u64> = v.read().val.iter().map(|x| *x as u64).collect();
+        let mut present: Vec<u64> = v.read().val.iter().map(|x| *x as u64).collect();
+        present.sort(); // HashSet order must not reach the choice
         if !present.is_empty() && rng.gen_bool(0.4) {
             json!({"c": "rm", "m": present[rng.gen_range(0..present.len())]})
         } else {
